@@ -301,18 +301,36 @@ class Recorder:
         return self.fns.setdefault(k, len(self.fns))
 
     def arg(self, a):
+        """the model arguments standing for one Python argument: containers compared element-wise are flattened, so that
+        the closures and stubs inside them are visible to the model"""
         from adaptix._internal.retort.operating_retort import FuncWrapper
+        from adaptix._internal.utils import AlwaysEqualHashWrapper, MappingHashWrapper, OrderedMappingHashWrapper
         if isinstance(a, FuncWrapper):
-            return f"EStub {self.stubs[id(a)]}"
+            return [f"EStub {self.stubs[id(a)]}"]
+        if isinstance(a, AlwaysEqualHashWrapper):
+            return ["EConst 0"]                              # all of them are equal to each other
+        if isinstance(a, (OrderedMappingHashWrapper, MappingHashWrapper)):
+            out = [f"EConst {self.const(('len', len(a.mapping)))}"]
+            for k, v in a.mapping.items():
+                out += self.arg(k) + self.arg(v)
+            return out
+        if type(a) is tuple:
+            out = [f"EConst {self.const(('tuple', len(a)))}"]
+            for x in a:
+                out += self.arg(x)
+            return out
         if id(a) in self.clos and callable(a):
-            return f"ECloId {self.clos[id(a)]}"
+            return [f"ECloId {self.clos[id(a)]}"]
         try:
             k = ("h", type(a), a)
             hash(k)
         except TypeError:
             k = ("id", id(a))
             self.keep.append(a)
-        return f"EConst {self.consts.setdefault(k, len(self.consts))}"
+        return [f"EConst {self.const(k)}"]
+
+    def const(self, k):
+        return self.consts.setdefault(k, len(self.consts) + 1)
 
     def new_clo(self, obj, fn, args):
         """a miss: the model allocates the next closure id"""
@@ -337,7 +355,7 @@ def install(rec):
         # accesses to the shared dict as scheduling points
         key = (func, *args, *kwargs.items())
         fn = rec.fn_id(func)
-        eargs = [rec.arg(a) for a in args] + [rec.arg(v) for _, v in kwargs.items()]
+        eargs = [e for a in args for e in rec.arg(a)] + [e for _, v in kwargs.items() for e in rec.arg(v)]
         if rec.sched:
             rec.sched.point(rec.t())
         if key in self._call_cache:
